@@ -23,6 +23,47 @@ pub fn hxl(b: &[u8]) -> String {
     if b.len() > 64 { format!("#{}:{:016x}", b.len(), fnv(b)) } else { hx(b) }
 }
 
+/// Pattern byte `i` of the generated payload `Z<len>.<seed>` (the same function in `Driver/Http.lean::patByte`).
+pub fn pat_byte(seed: u32, i: usize) -> u8 {
+    let x = (i as u32).wrapping_mul(2654435761).wrapping_add(seed);
+    ((x >> 24) ^ (x >> 11)) as u8
+}
+
+pub fn pat_bytes(len: usize, seed: u32) -> Vec<u8> {
+    (0..len).map(|i| pat_byte(seed, i)).collect()
+}
+
+pub const HEXZ_LIMIT: usize = 64 * 1024 * 1024;
+
+/// Compact byte strings (`hexz`): `_`-separated segments, each plain hex, `Z<len>.<seed>` (pattern bytes) or
+/// `Y<count>.<hex>` (a block repeated). Plain hex is the special case of one segment. Large bodies and long runs of
+/// identical requests stay out of the case line this way.
+pub fn unhexz(s: &str) -> Vec<u8> {
+    if !s.bytes().any(|c| c == b'_' || c == b'Z' || c == b'Y') {
+        return unhex(s);
+    }
+    let mut out = Vec::new();
+    for seg in s.split('_') {
+        if let Some(r) = seg.strip_prefix('Z') {
+            if let Some((l, sd)) = r.split_once('.') {
+                if let (Ok(l), Ok(sd)) = (l.parse::<usize>(), sd.parse::<u64>()) {
+                    if l <= HEXZ_LIMIT { out.extend(pat_bytes(l, sd as u32)); }
+                }
+            }
+        } else if let Some(r) = seg.strip_prefix('Y') {
+            if let Some((c, h)) = r.split_once('.') {
+                if let Ok(c) = c.parse::<usize>() {
+                    let b = unhex(h);
+                    if c.saturating_mul(b.len()) <= HEXZ_LIMIT { for _ in 0..c { out.extend_from_slice(&b); } }
+                }
+            }
+        } else {
+            out.extend(unhex(seg));
+        }
+    }
+    out
+}
+
 /// Canonical rendering of a parsed request (what C02 observes and nothing else).
 pub fn canon_request(req: &Request) -> String {
     let mut names: BTreeSet<Vec<u8>> = BTreeSet::new();
@@ -68,7 +109,7 @@ pub fn parse_chunks(chunks: Vec<Vec<u8>>, peer: SocketAddr) -> Result<Result<Req
 pub fn exec(f: &[String]) -> Option<String> {
     match (f[0].as_str(), f.len()) {
         ("req_parse", 6) => {
-            let bytes = unhex(&f[1]);
+            let bytes = unhexz(&f[1]);
             let chunks = apply_cuts(&bytes, &f[2]);
             let (ip, port) = f[3].split_once('|')?;
             let peer = SocketAddr::new(ip.parse().ok()?, port.parse().ok()?);
@@ -114,8 +155,48 @@ pub struct GenReq {
     pub version: &'static str,
     pub headers: Vec<GenHeader>,
     pub body: Option<Vec<u8>>,
-    pub xff: Option<Vec<(String, Option<&'static str>)>>, // entries as spelled (with spaces), canonical if valid
+    /// the body is `pat_bytes(len, seed)`: rendered as `Z<len>.<seed>` in the compact form of the request bytes
+    pub body_pat: Option<(usize, u32)>,
+    pub xff: Option<Vec<(String, Option<String>)>>, // entries as spelled (with spaces), canonical if valid
     pub cookies: Option<Vec<(String, String)>>,
+}
+
+/// How the ordinary field names of a request are drawn.
+#[derive(Clone, Copy, PartialEq, Default)]
+pub enum Names {
+    /// a small pool per request: names repeat and interleave
+    #[default]
+    Pool,
+    /// one name for every field
+    Same,
+    /// every field its own name
+    Distinct,
+}
+
+/// Dimensions of a request that the size/count sweeps fix (everything left `None` is drawn as usual).
+#[derive(Clone, Default)]
+pub struct Dims {
+    pub nh: Option<usize>,
+    pub names: Names,
+    pub ncookies: Option<usize>,
+    pub nxff: Option<usize>,
+    /// every n-th forwarded entry is an unparsable one (0 = none)
+    pub xff_invalid_every: usize,
+    pub body_len: Option<usize>,
+    /// short field values only (no 4..70 KiB lines): used when the COUNT is the dimension
+    pub short_values: bool,
+}
+
+/// The i-th address of the long forwarded chains: all distinct, IPv4 and IPv6 mixed; (as spelled, canonical).
+pub fn chain_addr(i: usize) -> (String, String) {
+    if i % 7 == 3 {
+        // canonical text = what std's Display prints (the trusted side of the IP oracle)
+        let c = std::net::Ipv6Addr::new(0x2001, 0xdb8, 0, 0, 0, 1, ((i >> 16) & 0xffff) as u16, (i & 0xffff) as u16).to_string();
+        (if i % 2 == 1 { c.to_uppercase() } else { c.clone() }, c)
+    } else {
+        let c = format!("10.{}.{}.{}", (i >> 16) & 255, (i >> 8) & 255, i & 255);
+        (c.clone(), c)
+    }
 }
 
 const IP_POOL: &[(&str, Option<&str>)] = &[
@@ -155,11 +236,11 @@ fn rand_case(rng: &mut Rng, s: &str) -> String {
         .collect()
 }
 
-fn rand_value(rng: &mut Rng) -> String {
+fn rand_value(rng: &mut Rng, short: bool) -> String {
     const ALPH: &[&str] = &["a", "b", "Z", "0", "9", " ", "\t", ":", ",", ";", "=", "/", "?", "é", "€", "😀", "\"", "%", "*", "-", "."];
     let n0 = rng.below(24);
     // now and then a LONG field line: lengths around the usual buffer and limit sizes (4 KiB, 8 KiB, 16 KiB, 64 KiB)
-    if rng.chance(1, 48) {
+    if !short && rng.chance(1, 48) {
         let target = *rng.pick(&[4090usize, 4096, 8150, 8186, 8192, 8193, 8200, 16384, 16400, 65530, 65536, 70000]) + rng.below(8) as usize;
         let mut s = String::with_capacity(target + 8);
         while s.len() < target {
@@ -176,6 +257,10 @@ fn rand_value(rng: &mut Rng) -> String {
 }
 
 pub fn gen_request(rng: &mut Rng, big_body: bool) -> GenReq {
+    gen_request_dims(rng, big_body, &Dims::default())
+}
+
+pub fn gen_request_dims(rng: &mut Rng, big_body: bool, dims: &Dims) -> GenReq {
     let method = *rng.pick(&["GET", "POST", "PUT", "DELETE", "OPTIONS"]);
     const SEG: &[&str] = &["a", "index.html", "%20", "é", "x-y_z", "..", ".", "%2e%2e", "😀", "A", "~", "*", "a:b", "a=b", "&"];
     let mut path = String::from("/");
@@ -205,6 +290,7 @@ pub fn gen_request(rng: &mut Rng, big_body: bool) -> GenReq {
         7 | 8 => rng.range(8, 24),
         _ => rng.range(21, 60),
     };
+    let nh = dims.nh.map(|n| n as u64).unwrap_or(nh);
     let mut headers = Vec::new();
     // a small name pool per request so that names repeat and interleave (defeats unstable sorting above 20)
     let pool_n = rng.range(1, 6) as usize;
@@ -219,16 +305,20 @@ pub fn gen_request(rng: &mut Rng, big_body: bool) -> GenReq {
             if matches!(c, "content-length" | "x-forwarded-for" | "cookie" | "transfer-encoding") { "x-other" } else { c }
         }
     }).collect();
-    for _ in 0..nh {
-        let base = *rng.pick(&pool);
+    for i in 0..nh {
+        let base: String = match dims.names {
+            Names::Pool => rng.pick(&pool).to_string(),
+            Names::Same => pool[0].to_string(),
+            Names::Distinct => format!("X-H-{}", i),
+        };
         headers.push(GenHeader {
-            name: rand_case(rng, base),
+            name: rand_case(rng, &base),
             ows: rng.pick(&[" ", "", "  ", "\t", " \t "]).to_string(),
-            value: rand_value(rng),
+            value: rand_value(rng, dims.short_values),
         });
     }
-    let cookies = if rng.chance(1, 3) {
-        let n = rng.range(1, 4);
+    let cookies = if dims.ncookies.is_some() || rng.chance(1, 3) {
+        let n = dims.ncookies.map(|n| n as u64).unwrap_or_else(|| rng.range(1, 4));
         let mut v = Vec::new();
         for i in 0..n {
             let k = format!("{}{}", rng.pick(&["sid", "HumphreyToken", "a", "é", "k-1"]), i);
@@ -239,15 +329,31 @@ pub fn gen_request(rng: &mut Rng, big_body: bool) -> GenReq {
     } else {
         None
     };
-    let xff = if rng.chance(1, 2) {
+    let xff = if let Some(n) = dims.nxff {
+        // a long chain of distinct addresses (the order and the number of the proxies is then visible in the result)
+        let base = rng.below(1 << 20) as usize;
+        Some((0..n).map(|i| {
+            if dims.xff_invalid_every > 0 && i % dims.xff_invalid_every == dims.xff_invalid_every - 1 {
+                (rng.pick(&["unknown", "1.2.3", "256.1.1.1", "1.2.3.4:80", "[::1]", "_hidden"]).to_string(), None)
+            } else {
+                let (s, c) = chain_addr(base + i);
+                (s, Some(c))
+            }
+        }).collect())
+    } else if rng.chance(1, 2) {
         let n = rng.range(1, 5);
         Some((0..n).map(|_| {
             let (s, c) = *rng.pick(IP_POOL);
-            (s.to_string(), c)
+            (s.to_string(), c.map(|c| c.to_string()))
         }).collect())
     } else {
         None
     };
+    if let Some(n) = dims.body_len {
+        let seed = rng.next() as u32;
+        let method = if method == "GET" || method == "OPTIONS" { "POST" } else { method };
+        return GenReq { method, path, query, version, headers, body: Some(pat_bytes(n, seed)), body_pat: Some((n, seed)), xff, cookies };
+    }
     let body = if method != "GET" || rng.chance(1, 4) {
         if rng.chance(2, 3) {
             let n = if big_body && rng.chance(1, 100) { rng.range(8000, 65536) } else { *rng.pick(&[0u64, 1, 2, 5, 17, 100, 255, 256, 1000]) };
@@ -258,11 +364,15 @@ pub fn gen_request(rng: &mut Rng, big_body: bool) -> GenReq {
     } else {
         None
     };
-    GenReq { method, path, query, version, headers, body, xff, cookies }
+    GenReq { method, path, query, version, headers, body, body_pat: None, xff, cookies }
 }
 
 pub struct Rendered {
     pub bytes: Vec<u8>,
+    /// the bytes in the compact `hexz` form (equal to `hex(bytes)` unless the body is a pattern)
+    pub enc: String,
+    /// length of the head (start line, fields, blank line)
+    pub head_len: usize,
     pub expect: String,
 }
 
@@ -289,7 +399,7 @@ pub fn render(rng: &mut Rng, g: &GenReq, peer: &str, port: u16) -> Rendered {
         let v = x.iter().map(|(s, _)| s.clone()).collect::<Vec<_>>().join(sep);
         let pos = rng.below(all.len() as u64 + 1) as usize;
         all.insert(pos, (rand_case(rng, "X-Forwarded-For"), " ".into(), v));
-        let valid: Vec<String> = x.iter().filter_map(|(_, c)| c.map(|c| c.to_string())).collect();
+        let valid: Vec<String> = x.iter().filter_map(|(_, c)| c.clone()).collect();
         if let Some(last) = valid.last() {
             let mut proxies: Vec<String> = valid[..valid.len() - 1].to_vec();
             proxies.push(peer.to_string());
@@ -317,6 +427,12 @@ pub fn render(rng: &mut Rng, g: &GenReq, peer: &str, port: u16) -> Rendered {
         lines.push((n.to_ascii_lowercase(), v.clone()));
     }
     out.extend(b"\r\n");
+    let head_len = out.len();
+    let enc = match (&g.body_pat, &g.body) {
+        (Some((n, seed)), Some(_)) if *n > 0 => format!("{}_Z{}.{}", hex(&out), n, seed),
+        (_, Some(b)) => { let mut e = hex(&out); e.push_str(&hex(b)); e }
+        _ => hex(&out),
+    };
     if let Some(b) = &g.body {
         out.extend(b);
     }
@@ -352,13 +468,18 @@ pub fn render(rng: &mut Rng, g: &GenReq, peer: &str, port: u16) -> Rendered {
         port,
         cookie_expect.iter().map(|(k, v)| format!("{}={}", hx(k.as_bytes()), hx(v.as_bytes()))).collect::<Vec<_>>().join(";")
     );
-    Rendered { bytes: out, expect }
+    Rendered { bytes: out, enc, head_len, expect }
 }
 
 fn emit(out: &mut Out, bytes: &[u8], cuts: &str, peer: &str, port: u16, expect: &str, nontrivial: bool) {
+    emit_enc(out, bytes, &hex(bytes), cuts, peer, port, expect, nontrivial)
+}
+
+/// `enc` = the request bytes in the (possibly compact) form that goes into the case line.
+fn emit_enc(out: &mut Out, bytes: &[u8], enc: &str, cuts: &str, peer: &str, port: u16, expect: &str, nontrivial: bool) {
     let f = vec![
         "req_parse".to_string(),
-        hex(bytes),
+        enc.to_string(),
         cuts.to_string(),
         format!("{}|{}", peer, port),
         ip_oracle(bytes),
@@ -404,6 +525,95 @@ fn tokio_cases(out: &mut Out, inputs: &[Vec<String>]) {
     }
 }
 
+/// Sizes and counts "well above small": one dimension at a time is swept around powers of two and the usual limits,
+/// everything else drawn as in the main loop. Every request goes through both parsers.
+fn sweeps(out: &mut Out, thorough: bool, seed: u64, tokio_inputs: &mut Vec<Vec<String>>) {
+    let mut rng = Rng::new(seed ^ 0xC02_5EE9);
+    let peers = [("127.0.0.1", 5000u16), ("192.168.1.7", 41234), ("::1", 80)];
+    let mut one = |out: &mut Out, rng: &mut Rng, dims: &Dims, tag: &str, cut_specs: &dyn Fn(&mut Rng, &Rendered) -> Vec<String>| {
+        let g = gen_request_dims(rng, false, dims);
+        let (peer, port) = *rng.pick(&peers);
+        let r = render(rng, &g, peer, port);
+        out.count(tag);
+        for cuts in cut_specs(rng, &r) {
+            emit_enc(out, &r.bytes, &r.enc, &cuts, peer, port, &r.expect, true);
+            tokio_inputs.push(vec!["req_parse".into(), r.enc.clone(), cuts, format!("{}|{}", peer, port), ip_oracle(&r.bytes), r.expect.clone()]);
+        }
+    };
+    // (1) Content-Length bodies around 64 KiB, 128 KiB, 256 KiB, 512 KiB, 1 MiB and a few very large ones. The body is a
+    // fixed pseudo-random pattern (`Z<len>.<seed>` in the case line). Reads: whole; MSS-/page-/buffer-sized; a cut exactly
+    // at, just before and just after the end of the head; the head with a part of the body, then the rest.
+    let sizes: Vec<usize> = if thorough {
+        vec![65_535, 65_536, 65_537, 100_000, 131_071, 131_072, 131_073, 200_000, 262_143, 262_144, 262_145, 262_161, 300_017, 393_216,
+             524_287, 524_288, 524_289, 786_433, 1_000_000, 1_048_575, 1_048_576, 1_048_577, 1_500_000, 2_097_151, 2_097_152, 2_097_153,
+             3_000_001, 4_194_304, 4_194_321]
+    } else {
+        vec![65_536, 65_537, 131_073, 262_144, 262_145, 300_017, 524_289, 1_048_576, 1_048_577]
+    };
+    for (i, n) in sizes.iter().enumerate() {
+        let dims = Dims { body_len: Some(*n), short_values: true, nh: Some(rng.range(0, 12) as usize), ..Dims::default() };
+        let n = *n;
+        one(out, &mut rng, &dims, &format!("sweep:body={}", if n < 200_000 { "64-128K" } else if n < 400_000 { "256K" } else if n < 1_000_000 { "512K" } else if n < 2_000_000 { "1M" } else { ">=2M" }),
+            &|rng, r| {
+                let h = r.head_len;
+                let all = vec![
+                    "w".to_string(),
+                    format!("k{}", rng.pick(&[1460usize, 4096, 8192, 16384])),
+                    format!("c{}", h),
+                    format!("k{}", rng.pick(&[65_536usize, 131_072, 262_144, 262_145, 1_048_576])),
+                    format!("c{}.{}", h - 1, h + 1),
+                    format!("c{}.{}", h + rng.range(1, 4000) as usize, h + n / 2),
+                    random_cuts(rng, r.bytes.len()),
+                ];
+                // quick: two of the seven per size, rotating so that every kind of read plan meets several sizes
+                let (a, b) = (i % 7, (i * 3 + 1) % 7);
+                if thorough { all } else { vec![all[a].clone(), all[if b == a { (b + 1) % 7 } else { b }].clone()] }
+            });
+    }
+    // (2) the NUMBER of field lines: up to ~1000 (thorough 2048), names from a small pool (many same-named, interleaved), all
+    // the same name, or all distinct
+    let counts: Vec<usize> = if thorough {
+        vec![61, 63, 64, 65, 99, 100, 101, 127, 128, 129, 200, 255, 256, 257, 300, 500, 511, 512, 513, 999, 1000, 1001, 1023, 1024, 1025, 2048]
+    } else {
+        vec![64, 65, 100, 128, 129, 255, 256, 257, 500, 1000]
+    };
+    for (i, n) in counts.iter().enumerate() {
+        let modes: Vec<Names> = if thorough && *n <= 1025 { vec![Names::Pool, Names::Same, Names::Distinct] } else { vec![[Names::Pool, Names::Same, Names::Distinct][i % 3]] };
+        for names in modes {
+            let dims = Dims { nh: Some(*n), names, short_values: true, ..Dims::default() };
+            one(out, &mut rng, &dims, &format!("sweep:fields={}", if *n <= 129 { "61-129" } else if *n <= 513 { "200-513" } else { "999+" }),
+                &|rng, r| if thorough || *n < 500 { vec!["w".to_string(), format!("k{}", rng.range(2, 9000)), random_cuts(rng, r.bytes.len())] }
+                          else { vec![format!("k{}", rng.range(2, 9000))] });
+        }
+    }
+    // (3) the number of cookies in the Cookie field
+    let cookie_counts: Vec<usize> = if thorough {
+        vec![1, 2, 3, 4, 5, 8, 15, 16, 17, 31, 32, 33, 49, 50, 51, 63, 64, 65, 100, 127, 128, 129, 255, 256, 257, 300, 1000, 1024, 4096]
+    } else {
+        vec![5, 16, 17, 32, 33, 64, 100, 128, 256, 257, 1000]
+    };
+    for n in &cookie_counts {
+        let dims = Dims { ncookies: Some(*n), short_values: true, ..Dims::default() };
+        one(out, &mut rng, &dims, &format!("sweep:cookies={}", if *n <= 33 { "1-33" } else if *n <= 129 { "49-129" } else { "255+" }),
+            &|rng, r| vec!["w".to_string(), random_cuts(rng, r.bytes.len())]);
+    }
+    // (4) the length of the X-Forwarded-For chain (distinct addresses, so origin, order and number of proxies are visible),
+    // with and without unparsable entries in between
+    let chain: Vec<usize> = if thorough {
+        vec![1, 2, 3, 4, 5, 6, 7, 8, 9, 15, 16, 17, 18, 31, 32, 33, 34, 63, 64, 65, 66, 100, 127, 128, 129, 255, 256, 257, 500, 1000, 1024, 4096]
+    } else {
+        vec![1, 2, 3, 4, 5, 15, 16, 17, 18, 31, 32, 33, 34, 64, 65, 100, 128, 256, 257, 1000]
+    };
+    for n in &chain {
+        for inv in [0usize, 5] {
+            if inv > 0 && !thorough && *n > 5 && *n % 2 == 1 { continue; }
+            let dims = Dims { nxff: Some(*n), xff_invalid_every: inv, short_values: true, ..Dims::default() };
+            one(out, &mut rng, &dims, &format!("sweep:forwarded={}", if *n <= 9 { "1-9" } else if *n <= 34 { "15-34" } else if *n <= 129 { "63-129" } else { "255+" }),
+                &|rng, r| vec!["w".to_string(), random_cuts(rng, r.bytes.len())]);
+        }
+    }
+}
+
 pub fn gen(out: &mut Out, thorough: bool, seed: u64) {
     let mut rng = Rng::new(seed ^ 0xC02);
     let mut tokio_inputs: Vec<Vec<String>> = Vec::new();
@@ -438,6 +648,11 @@ pub fn gen(out: &mut Out, thorough: bool, seed: u64) {
             }
         }
     }
+    // (the tokio twins of the sweeps go to the FRONT of the tokio block: the slow lines of a case file must not be its last
+    // ones, see the note in c01.rs::gen)
+    let mut sweep_tokio: Vec<Vec<String>> = Vec::new();
+    sweeps(out, thorough, seed, &mut sweep_tokio);
+    tokio_inputs.splice(0..0, sweep_tokio);
     // hand-written corner cases of the grammar (no expectation: judged by model agreement only)
     let corner: &[&[u8]] = &[
         b"GET / HTTP/1.1\r\n\r\n",
